@@ -7,6 +7,9 @@ import PetgraphModel.Proofs.CsrIter
 import PetgraphModel.Proofs.AdjList
 import PetgraphModel.Proofs.C05W3Csr
 import PetgraphModel.Proofs.C05W3List
+import PetgraphModel.Proofs.C05W5Scope
+import PetgraphModel.Proofs.C05W5Search
+import PetgraphModel.Proofs.C05W5Cap
 /-
 C05 — `Csr` and `adj::List`, the append-only graphs, report exactly what was inserted.
 
@@ -214,15 +217,15 @@ theorem C05_csr_all_histories (d : Bool) (m c : Nat) (dbg : Bool) (n : Nat) (ops
 
 /-- **the readers report exactly the abstract graph**: `neighbors_slice`/`edges_slice` are the ascending
 successor list with its weights, `out_degree` its length, `contains_edge` membership, `edge_count` the number
-of edges, `Index` the node weight; at `a = node_count` they answer "empty", beyond that they panic.
+of edges, `Index` the node weight; for EVERY node that does not exist (`a ≥ node_count`) `neighbors_slice`,
+`edges_slice`, `out_degree`, `contains_edge` (for every `b`) and the private `find_edge_pos` they are built on
+are the documented panic ("**Panics** if the node `a` does not exist").
 
-**Remark R-C05-1.**  The clause for `a = g.n` (= `node_count`) ADOPTS THE IMPLEMENTATION'S BEHAVIOUR, not the
-documentation's: `neighbors_slice`, `edges_slice`, `out_degree`, `contains_edge` (and `edges`, see
-`C05_csr_edges_iter`) are all documented "**Panics** if the node `a` does not exist", and node `node_count`
-does not exist — yet `neighbors_range` reads `row[a]` (present: `row` has `node_count + 1` entries) and
-`row.get(a + 1)` (`None` → `column.len()`), so the call returns the empty answer without panicking.  The
-theorem records what the code does (`some []` / `some 0` / `some false`); it is *not* evidence that the
-documented panic happens.  The documented panic is only proved for `a > node_count` (third clause). -/
+(History: up to /repo commit aadb875 `neighbors_range` read `row.get(a + 1).unwrap_or(column.len())`, so for
+`a = node_count` — where `row[a]` is the sentinel entry — these calls returned the empty answer instead of
+panicking: finding D32, formerly remark R-C05-1 of this file.  The repaired code indexes `row[a + 1]`; the mirror
+`CsrM.neighborsRange` follows, and the clause for `a = node_count` that adopted the old behaviour is gone —
+`C05_D32_witness_repaired` records the old witness.) -/
 theorem C05_csr_readers (s : State) (R : List CsrProofs.Row) (g : SG) (good : Good s R) (abs : Abs s R g) (a : Nat) :
     (a < g.n →
       neighborsSlice s a = some ((g.succ a).map (·.1)) ∧
@@ -230,22 +233,72 @@ theorem C05_csr_readers (s : State) (R : List CsrProofs.Row) (g : SG) (good : Go
       outDegree s a = some (g.succ a).length ∧
       (∀ b, containsEdge s a b = some (g.has a b)) ∧
       index s a = g.nodes[a]?) ∧
-    (a = g.n → neighborsSlice s a = some [] ∧ edgesSlice s a = some [] ∧ outDegree s a = some 0 ∧
-      ∀ b, containsEdge s a b = some false) ∧
-    (g.n < a → neighborsSlice s a = none ∧ edgesSlice s a = none ∧ outDegree s a = none ∧
-      ∀ b, containsEdge s a b = none) ∧
+    (g.n ≤ a → neighborsSlice s a = none ∧ edgesSlice s a = none ∧ outDegree s a = none ∧
+      (∀ b, containsEdge s a b = none) ∧ (∀ b, findEdgePos s a b = none)) ∧
     s.edgeCountQ = g.edgeCount ∧ s.nodeCount = g.n :=
   readers good abs a
 
 /-- **`edges(a)`** yields, for an existing node, exactly `(a, target, weight)` for the specified successors, in
-ascending target order, with the consecutive edge ids `row[a], row[a]+1, …`; empty at `a = node_count`
-(implementation behaviour, not the documented panic — remark R-C05-1 at `C05_csr_readers`), panic beyond. -/
+ascending target order, with the consecutive edge ids `row[a], row[a]+1, …`; for every node that does not exist
+(`a ≥ node_count`) it is the documented panic (since the repair of D32, see `C05_csr_readers`). -/
 theorem C05_csr_edges_iter (s : State) (R : List CsrProofs.Row) (g : SG) (good : Good s R) (abs : Abs s R g) (a : Nat) :
     (a < g.n → ∃ refs, edgesOf s a = some refs ∧
       refs.map (fun e => (e.2.1, e.2.2.1, e.2.2.2)) = (g.succ a).map (fun x => (a, x.1, x.2)) ∧
       refs.map (·.1) = (List.range (g.succ a).length).map (· + start R a)) ∧
-    (a = g.n → edgesOf s a = some []) ∧ (g.n < a → edgesOf s a = none) :=
+    (g.n ≤ a → edgesOf s a = none) :=
   edgesOf_spec good abs a
+
+/-- **the documented panic of the readers, in the terms of `csr.rs` and for all histories**: after ANY history from
+`with_nodes(n)` every reader called with a node index `a ≥ node_count()` panics, and every reader called with an
+existing node does not. -/
+theorem C05_csr_readers_panic_iff_all_histories (d : Bool) (m c : Nat) (dbg : Bool) (n : Nat) (ops : List Op) (a : Nat) :
+    let s := (run (withNodes d m c dbg n) ops).1
+    ((neighborsSlice s a).isNone ↔ s.nodeCount ≤ a) ∧ ((edgesSlice s a).isNone ↔ s.nodeCount ≤ a) ∧
+    ((outDegree s a).isNone ↔ s.nodeCount ≤ a) ∧ ((edgesOf s a).isNone ↔ s.nodeCount ≤ a) ∧
+    (∀ b, (containsEdge s a b).isNone ↔ s.nodeCount ≤ a) := by
+  intro s
+  obtain ⟨R, good, abs, _⟩ := C05_csr_all_histories d m c dbg n ops
+  have hr := readers good abs a
+  have he := edgesOf_spec good abs a
+  have hn : s.nodeCount = _ := hr.2.2.2
+  by_cases ha : a < s.nodeCount
+  · have h1 := hr.1 (hn ▸ ha)
+    obtain ⟨refs, h2, _⟩ := he.1 (hn ▸ ha)
+    have hna : ¬ s.nodeCount ≤ a := by omega
+    refine ⟨?_, ?_, ?_, ?_, fun b => ?_⟩
+    · simp only [show neighborsSlice s a = _ from h1.1, hna]; simp
+    · simp only [show edgesSlice s a = _ from h1.2.1, hna]; simp
+    · simp only [show outDegree s a = _ from h1.2.2.1, hna]; simp
+    · simp only [show edgesOf s a = _ from h2, hna]; simp
+    · simp only [show containsEdge s a b = _ from h1.2.2.2.1 b, hna]; simp
+  · have hge : s.nodeCount ≤ a := by omega
+    have h1 := hr.2.1 (hn ▸ hge)
+    have h2 := he.2 (hn ▸ hge)
+    refine ⟨?_, ?_, ?_, ?_, fun b => ?_⟩
+    · simp only [show neighborsSlice s a = _ from h1.1, hge]; simp
+    · simp only [show edgesSlice s a = _ from h1.2.1, hge]; simp
+    · simp only [show outDegree s a = _ from h1.2.2.1, hge]; simp
+    · simp only [show edgesOf s a = _ from h2, hge]; simp
+    · simp only [show containsEdge s a b = _ from h1.2.2.2.1 b, hge]; simp
+
+/-- **finding D32, the old witness, repaired**: on `Csr::with_nodes(3)` (and after a history on it) `out_degree(3)`,
+`neighbors_slice(3)`, `edges_slice(3)`, `contains_edge(3, b)`, `edges(3)` used to answer `0` / `[]` / `false` although
+node 3 does not exist; now each of them is the documented panic, exactly as for `a = 4, 5, …`, while the readers of the
+existing nodes `0..2` — including the last one, whose range ends at the sentinel entry `row[3]` — answer as before. -/
+theorem C05_D32_witness_repaired :
+    let s0 := withNodes true 256 32 true 3
+    let s1 := (run (withNodes false 256 32 true 3) [.addEdge 0 2 5, .tryAddEdge 2 1 7]).1
+    (outDegree s0 3 = none ∧ neighborsSlice s0 3 = none ∧ edgesSlice s0 3 = none ∧ edgesOf s0 3 = none ∧
+     containsEdge s0 3 0 = none ∧ containsEdge s0 3 3 = none ∧ findEdgePos s0 3 0 = none ∧
+     outDegree s0 4 = none ∧ outDegree s0 2 = some 0 ∧ neighborsSlice s0 2 = some [] ∧ containsEdge s0 2 3 = some false) ∧
+    (outDegree s1 3 = none ∧ neighborsSlice s1 3 = none ∧ edgesSlice s1 3 = none ∧ edgesOf s1 3 = none ∧
+     containsEdge s1 3 0 = none ∧
+     outDegree s1 2 = some 2 ∧ neighborsSlice s1 2 = some [0, 1] ∧ edgesSlice s1 2 = some [5, 7] ∧
+     edgesOf s1 2 = some [(2, 2, 0, 5), (3, 2, 1, 7)] ∧ containsEdge s1 2 1 = some true ∧
+     (List.range 3).map (outDegree s1) = [some 1, some 1, some 2]) ∧
+    -- the empty graph: node 0 does not exist
+    (outDegree (new true 256 32 true) 0 = none ∧ neighborsSlice (new true 256 32 true) 0 = none) := by
+  decide
 
 /-- **`edge_references()`** never panics under the invariant and yields every stored entry once, row by row
 (`allTriples`: source `Ix::new(row index)`, then the row's `(target, weight)` in ascending order), with the ids
@@ -375,7 +428,7 @@ theorem C05_csr_add_node_capacity_spec (s : State) (R : List CsrProofs.Row) (g :
     (s.modulus = 0 ∨ g.n < s.modulus →
       (step s (.addNode w)).2 = .ix g.n ∧ (specStep s.modulus g (.addNode w)).2 = .ix g.n ∧
       (specStep s.modulus g (.addNode w)).1.n = g.n + 1) := by
-  have hn : s.nodeCount = g.n := (readers good abs 0).2.2.2.2
+  have hn : s.nodeCount = g.n := (readers good abs 0).2.2.2
   obtain ⟨h1, h2⟩ := addNode_capacity good w
   rw [hn] at h1 h2
   refine ⟨fun hc => ?_, fun hf => ?_⟩
@@ -426,6 +479,177 @@ theorem C05_D31_witness_repaired_csr :
      index (run (new true 4 32 true) [.addNode 10, .addNode 11, .addNode 12, .addNode 13, .addNode 14]).1 0
         = some 10) := by
   decide
+
+/-! ### wave 5: the constructors and the capacity of the index type -/
+
+/-- **`with_nodes(n)` beyond the capacity of the index type** (`m ≠ 0` values, `n > m`; e.g.
+`Csr::<_, _, _, u8>::with_nodes(300)`).  `with_nodes` performs no capacity check, and this is what it builds: a valid
+`Csr` (`Inv`) with `node_count() = n` representing the edgeless graph on `n` nodes — whose nodes `m..n-1` CANNOT BE
+NAMED: `node_identifiers()` / `node_references()` pass each position through `Ix::new`, so position `i + m` yields the
+same identifier as position `i` (the list is not duplicate-free), every node index a caller can form is `< m`
+(`mkIx m a < m`), and `add_node` is the documented panic.  This lies OUTSIDE the property's quantifier (histories on
+graphs whose nodes are the values of the index type); the harness records the real code's behaviour there as an
+observation (`obs` lines, compared exactly with the mirror, never judged).  All theorems that do not assume `hcap`/`hn`
+— refinement for all histories, readers for `a < node_count`, panic for `a ≥ node_count` — still hold there. -/
+theorem C05_csr_with_nodes_beyond_capacity (d : Bool) (m c : Nat) (dbg : Bool) (n : Nat) (hm : m ≠ 0) (hn : m < n) :
+    let s := withNodes d m c dbg n
+    Inv s ∧ s.nodeCount = n ∧
+    nodeIdentifiers s = (List.range n).map (· % m) ∧
+    nodeReferences s = (List.range n).map (fun i => (i % m, (0 : Int))) ∧
+    (∀ i, i + m < n → (nodeIdentifiers s)[i + m]? = (nodeIdentifiers s)[i]?) ∧
+    ¬ (nodeIdentifiers s).Nodup ∧
+    (∀ a, mkIx m a < m) ∧
+    (∀ w, step s (.addNode w) = (s, .panic)) := by
+  intro s
+  obtain ⟨h1, h2, h3, h4, h5⟩ := withNodes_beyond d m c dbg n hm hn
+  have hinv : Inv s := ⟨_, good_withNodes d m c dbg n⟩
+  refine ⟨hinv, h1, h2, h3, h4, h5, fun a => mkIx_lt m a hm, fun w => ?_⟩
+  have := (C05_csr_add_node_capacity s hinv w).1 ⟨hm, by rw [h1]; exact Nat.le_of_lt hn⟩
+  exact this.2
+
+/-- … and it stays that way: a `Csr` that is full for (or beyond) its index type never gets another node — in EVERY
+history from `with_nodes(n)`, `m ≤ n`, the node count stays `n` and `node_identifiers()` stays what it was (so beyond
+the capacity the collision of identifiers is permanent, and at the capacity `n = m` the identifiers stay `0..m-1`). -/
+theorem C05_csr_full_forever (d : Bool) (m c : Nat) (dbg : Bool) (n : Nat) (ops : List Op) (hm : m ≠ 0) (hn : m ≤ n) :
+    (run (withNodes d m c dbg n) ops).1.nodeCount = n ∧
+    nodeIdentifiers (run (withNodes d m c dbg n) ops).1 = nodeIdentifiers (withNodes d m c dbg n) :=
+  run_full d m c dbg n ops hm hn
+
+/-- **`from_sorted_edges` cannot exceed the capacity**: its endpoints are `NodeIndex<Ix>` values (`hrep`: every
+endpoint `< m`; the driver checks it on every `from_sorted` line), the node count is the largest endpoint + 1, hence at
+most `m`.  So the capacity assumption of the property concerns `with_nodes` alone. -/
+theorem C05_from_sorted_within_capacity (m c : Nat) (dbg : Bool) (es : List Edge) (s : State)
+    (hrep : m = 0 ∨ ∀ e ∈ es, e.1 < m ∧ e.2.1 < m) (h : fromSortedEdges m c dbg es = .ok s) :
+    s.nodeCount = fsNodes es ∧ (m = 0 ∨ s.nodeCount ≤ m) :=
+  fromSorted_within_capacity m c dbg es s hrep h
+
+/-! non-vacuity (a 2-bit index type): six nodes, identifiers `0,1,2,3,0,1`; `from_sorted_edges` at the top of the range -/
+example : nodeIdentifiers (withNodes true 4 32 true 6) = [0, 1, 2, 3, 0, 1] ∧
+    (run (withNodes true 4 32 true 6) [.addNode 1, .addEdge 1 5 7, .addEdge 1 2 7]).2.map CsrProofs.outPanic
+      = [true, false, false] := by decide
+example : ∃ s, fromSortedEdges 4 32 true [(0, 3, 1), (3, 3, 2)] = .ok s ∧ s.nodeCount = 4 := ⟨_, rfl, by decide⟩
+
+/-! ### wave 5: `slice::binary_search` by its documented contract -/
+
+/-- the documented contract of `<[T]>::binary_search` for one call: `Ok(i)` ⇒ `xs[i] = b`; `Err(i)` ⇒ `b` does not
+occur, `i ≤ len` and inserting `b` at `i` keeps the slice sorted -/
+abbrev BSAnswer := CsrProofs.BSAnswer
+/-- `search` meets that contract on every strictly ascending slice (nothing is assumed about other inputs) -/
+abbrev MeetsContract := CsrProofs.MeetsContract
+/-- `find_edge_pos` / one public call / a history, with `search` in place of `slice::binary_search` -/
+abbrev findEdgePosWith := CsrProofs.findEdgePosWith
+abbrev stepWith := CsrProofs.stepWith
+abbrev runWith := CsrProofs.runWith
+
+/-- **the contract determines the answer on a strictly ascending slice**: an answer that meets the contract is the
+answer of the linear scan, i.e. of both branches of the mirror's `find_edge_pos` search. -/
+theorem C05_binary_search_contract_unique (c : Nat) (xs : List Nat) (b : Nat) (h : Asc xs) (p : Pos)
+    (hp : BSAnswer xs b p) : p = searchPos c xs b ∧ p = linearPos b xs 0 ∧
+      p = binaryPos xs b (xs.length + 1) 0 xs.length := by
+  have h1 := CsrProofs.BSAnswer.unique h hp
+  have h2 := C05_find_pos c c xs b h
+  exact ⟨by rw [h1, h2.2.1], h1, by rw [h1, h2.2.2]⟩
+
+/-- the mirror's search (both branches, any cut-off) meets the contract: `MeetsContract` is satisfiable, and the
+differential `bsearch` test of the harness compares std with a function that is inside the contract. -/
+theorem C05_mirror_search_meets_contract (c : Nat) : MeetsContract (searchPos c) := searchPos_meets c
+
+/-- without strictness the contract does NOT determine the answer (std: "if there are multiple matches, then any one
+of the matches could be returned") — which is why the exact comparison is made on strictly ascending slices only and
+slices with repeated entries are judged by the contract. -/
+theorem C05_binary_search_contract_not_unique_false_witness :
+    BSAnswer [1, 1] 1 (.found 0) ∧ BSAnswer [1, 1] 1 (.found 1) ∧ Pos.found 0 ≠ Pos.found 1 ∧ ¬ Asc [1, 1] := by
+  refine ⟨rfl, rfl, by decide, ?_⟩
+  show ¬ List.Pairwise (· < ·) [1, 1]
+  decide
+
+/-- **ANY search that meets std's documented contract gives the same `find_edge_pos`**: in every valid `Csr` state
+(rows strictly ascending by the invariant), for every `a`, `b` — existing node or not, row on either side of the
+cut-off — `find_edge_pos` computed with `search` in place of `slice::binary_search` is the mirror's `find_edge_pos`. -/
+theorem C05_find_edge_pos_any_contract_search (search : List Nat → Nat → Pos) (hc : MeetsContract search)
+    (s : State) (h : Inv s) (a b : Nat) : findEdgePosWith search s a b = findEdgePos s a b := by
+  obtain ⟨R, good⟩ := h
+  exact good.rep.findEdgePosWith_eq good.ok search hc a b
+
+/-- … hence **every history is the same**: the model run with ANY contract-meeting search in `add_edge` /
+`try_add_edge` (including the intermediate state of an undirected insertion) ends in the same `Csr` value and gives
+the same answers as the mirror, so every C05 theorem about `run` holds for std's `binary_search` provided std meets its
+documented contract — the trusted-base item is exactly that contract, not the textbook algorithm. -/
+theorem C05_csr_any_contract_search_all_histories (search : List Nat → Nat → Pos) (hc : MeetsContract search)
+    (s : State) (h : Inv s) (ops : List Op) : runWith search s ops = run s ops := by
+  induction ops generalizing s with
+  | nil => rfl
+  | cons op ops ih =>
+    obtain ⟨R, good⟩ := h
+    have h1 : stepWith search s op = step s op := good.stepWith_eq search hc op
+    have h2 : Inv (step s op).1 := C05_csr_inv_step s op ⟨R, good⟩
+    have h3 := ih _ h2
+    show (let (s1, o) := CsrProofs.stepWith search s op
+          let (s2, os) := CsrProofs.runWith search s1 ops
+          (s2, o :: os)) = _
+    rw [show CsrProofs.stepWith search s op = step s op from h1]
+    show (let (s2, os) := CsrProofs.runWith search (step s op).1 ops
+          (s2, (step s op).2 :: os)) = _
+    rw [show CsrProofs.runWith search (step s op).1 ops = run (step s op).1 ops from h3]
+    rfl
+
+/-- the judge of the `bsearch` protocol lines is sound and complete: on a sorted slice it accepts an answer iff the
+answer meets the documented contract. -/
+theorem C05_bsearch_judge_iff (xs : List Nat) (x : Nat) (p : Pos) (hs : xs.Pairwise (· ≤ ·)) :
+    C05Scope.bsContractB xs x p = true ↔ BSAnswer xs x p :=
+  bsContractB_iff xs x p hs
+
+/-! non-vacuity: a search that differs from the mirror's OUTSIDE strictly ascending slices still meets the contract -/
+example : MeetsContract (fun xs b => if C05Scope.ascB xs then searchPos 0 xs b else .found 7) := by
+  intro xs b h
+  have : C05Scope.ascB xs = true := (ascB_iff xs).mpr h
+  simp only [this, if_true]
+  exact searchPos_meets 0 xs b h
+example : BSAnswer [2, 5, 9] 6 (.absent 2) ∧ BSAnswer [2, 5, 9] 5 (.found 1) := by
+  refine ⟨⟨by decide, by decide, by decide⟩, rfl⟩
+
+/-! ### run-time checks of the hypotheses (Csr)
+
+Every hypothesis of the theorems above that concerns the concrete case is evaluated by the driver
+(`Driver/C05.lean`) on every case it judges, as one of the executable Booleans of `Spec/C05Scope.lean`; the theorems
+below turn a successful check into the hypothesis.  `csrScopeB` is evaluated after every constructor / mutating line
+on the driver's (mirror state, specification state) pair, `capB` with it, `representableB` on every `from_sorted`
+line, `ascB` / `sortedB` on every `bsearch` line.  A failing check is answered
+`SPECFAIL side condition … does not hold` / `SPECFAIL generator left the proved range` and never fires on the
+unchanged tree.  (Index bounds such as `a < node_count` are not assumed: the theorems case-split on them as the
+driver does.) -/
+
+/-- `Inv` / `Good` / `Abs` — the hypotheses of `C05_csr_readers`, `C05_csr_edges_iter`, `C05_csr_edge_references`,
+`C05_csr_refines_step`, `C05_csr_existing_edge`, `C05_csr_out_of_range`, `C05_csr_no_panic`, … -/
+theorem C05_csr_scope_check (s : State) (g : SG) (h : C05Scope.csrScopeB s g = true) :
+    Inv s ∧ ∃ R, Good s R ∧ Abs s R g :=
+  ⟨⟨_, (csrScope_check s g h).1⟩, _, csrScope_check s g h⟩
+
+/-- `hcap` of `C05_csr_node_readers`, `hn` of `C05_csr_node_readers_all_histories` / `C05_csr_no_wrap_all_histories`,
+`hc` of `C05_csr_fits_capacity` -/
+theorem C05_cap_check (m n : Nat) (h : C05Scope.capB m n = true) : m = 0 ∨ n ≤ m := (capB_iff m n).mp h
+
+/-- `Asc xs` of `C05_find_pos`, `C05_find_pos_contract`, `C05_binary_search_contract_unique` -/
+theorem C05_asc_check (xs : List Nat) (h : C05Scope.ascB xs = true) : Asc xs := (ascB_iff xs).mp h
+
+/-- sortedness, the hypothesis of `C05_bsearch_judge_iff` -/
+theorem C05_sorted_check (xs : List Nat) (h : C05Scope.sortedB xs = true) : xs.Pairwise (· ≤ ·) :=
+  (sortedB_iff xs).mp h
+
+/-- `hrep` of `C05_from_sorted_within_capacity` -/
+theorem C05_representable_check (m : Nat) (es : List Edge) (h : C05Scope.representableB m es = true) :
+    m = 0 ∨ ∀ e ∈ es, e.1 < m ∧ e.2.1 < m := (representableB_iff m es).mp h
+
+/-! non-vacuity of the scope check: the state and the specification graph after a real history pass it -/
+example : C05Scope.csrScopeB
+    (run (withNodes false 256 32 true 3) [.addEdge 0 2 5, .tryAddEdge 2 1 7, .addEdge 0 2 9, .tryAddEdge 1 3 1, .addNode 4]).1
+    (specRun 256 { directed := false, nodes := List.replicate 3 0, edges := [] }
+      [.addEdge 0 2 5, .tryAddEdge 2 1 7, .addEdge 0 2 9, .tryAddEdge 1 3 1, .addNode 4]).1 = true := by decide
+/-! … and it can fail: a state whose row 0 is not ascending / a specification graph with a different weight -/
+example : C05Scope.csrScopeB { (withNodes true 256 32 true 3) with column := [2, 1], edges := [0, 0], row := [0, 2, 2, 2] }
+    { directed := true, nodes := [0, 0, 0], edges := [((0, 2), 0), ((0, 1), 0)] } = false := by decide
+example : C05Scope.csrScopeB (run (withNodes true 256 32 true 3) [.addEdge 0 2 5]).1
+    { directed := true, nodes := [0, 0, 0], edges := [((0, 2), 6)] } = false := by decide
 
 end Csr
 
@@ -652,6 +876,21 @@ example : AdjM.edgeReferences (AdjM.run (AdjM.new 256)
     = [(0, 0, 1, 9), (1, 0, 0, 5), (1, 1, 0, 7)] := by decide
 example : (lspecRun 256 {} [.addNode, .addNode, .addEdge 1 0 5, .addEdge 0 1 6, .addEdge 1 0 7, .updateEdge 0 1 9]).1.edges.map lrefOf
     = [(1, 0, 0, 5), (0, 0, 1, 9), (1, 1, 0, 7)] := by decide
+
+/-! ### run-time checks of the hypotheses (adj::List) -/
+
+/-- `LAbs` — the hypothesis of `C05_list_readers`, `C05_list_refines_step`, `C05_list_parallel_kept`,
+`C05_list_edge_count`, `C05_list_iteration*`, `C05_list_edges_of`, … — from the executable check the driver evaluates
+after every constructor / mutating line of a `List` case (`hcap` of `C05_list_iteration` is `C05_cap_check`). -/
+theorem C05_list_scope_check (s : AdjM.State) (g : ML) (h : C05Scope.listScopeB s g = true) : LAbs s g :=
+  AdjProofs.listScope_check s g h
+
+example : C05Scope.listScopeB
+    (AdjM.run (AdjM.new 256) [.addNode, .addNode, .addEdge 1 0 5, .addEdge 0 1 6, .addEdge 1 0 7, .updateEdge 0 1 9]).1
+    (lspecRun 256 {} [.addNode, .addNode, .addEdge 1 0 5, .addEdge 0 1 6, .addEdge 1 0 7, .updateEdge 0 1 9]).1 = true := by
+  decide
+example : C05Scope.listScopeB (AdjM.run (AdjM.new 256) [.addNode, .addNode, .addEdge 1 0 5]).1
+    (lspecRun 256 {} [.addNode, .addNode, .addEdge 0 1 5]).1 = false := by decide
 
 end AdjList
 
